@@ -313,12 +313,13 @@ private:
 		if(! tempList.empty()) {
 			for(auto it = tempList.begin(); it != tempList.end(); ) {
 				using ArgsTuple = typename PrototypeInfo::ArgsTuple;
-				auto item = it->template get<QueuedItem<ArgsTuple> >();
-
-				if(item.callableIndex != PrototypeInfo::index) {
+				// Check the prototype through the common base first: the slot may hold an event of another
+				// prototype, which must not be viewed (let alone copied) as QueuedItem<ArgsTuple>.
+				if(it->template get<QueuedItemBase>().callableIndex != PrototypeInfo::index) {
 					++it;
 					continue;
 				}
+				auto & item = it->template get<QueuedItem<ArgsTuple> >();
 				if(doInvokeFuncWithQueuedEvent(
 					func,
 					item,
